@@ -391,9 +391,10 @@ def normalize_paths(r: R, chk, qual="knotspace.KnotVector.normalize", rule="NORM
 
 # ------------------------------------------------------------------------------------------------
 # INTERVAL-FROM-OPERAND (C09 / C08 / C07): a result curve lives on a knot vector built from the operand's knot values
-def kv_taint(fi, seeds: Set[str]):
-    """names holding (something built from) the knot values of an operand: flow-insensitive fixpoint"""
-    tainted = set()
+def kv_taint(fi, seeds: Set[str], pre: Optional[Set[str]] = None):
+    """names holding (something built from) the knot values of an operand: flow-insensitive fixpoint; `pre`: names that hold
+    knot values on entry (parameters of a private helper, judged at its call site)"""
+    tainted = set(pre or ())
     # names that hold (something derived from) an operand: the operands themselves, their copies, fractions ...
     derived = set(seeds)
     ch = True
@@ -461,11 +462,25 @@ def kv_taint(fi, seeds: Set[str]):
 
 def interval_from_operand(r: R, chk, quals: List[str], rule="INTERVAL", floor: int = 1):
     n = 0
+    work = []
     for q in quals:
         ctx = r.root(q)
         fi = ctx.fi
-        seeds = {p for p in fi.params}
-        tainted, is_kv = kv_taint(fi, seeds)
+        tainted, is_kv = kv_taint(fi, {p for p in fi.params})
+        work.append((q, ctx, fi, is_kv))
+        # a private helper of the same class that builds the result (`self.__restrict(newvector, matrix)` inside a comprehension
+        # cannot be inlined into the view): its parameters are judged at the call site
+        for cr in ctx.calls:
+            for callee in cr.callees:
+                if not (callee.name.startswith("_") and not callee.name.endswith("__") and callee.qual in r.A.roots and isinstance(cr.node, ast.Call)):
+                    continue
+                ps = [p for p in callee.params if p not in ("self", "cls")]
+                pre = {p for p, a in zip(ps, cr.node.args) if is_kv(a)}
+                hctx = r.root(callee.qual)
+                _, h_is_kv = kv_taint(callee, {p for p in callee.params if p in ("self", "cls")}, pre)
+                if not any(w[0] == callee.qual for w in work):
+                    work.append((callee.qual, hctx, callee, h_is_kv))
+    for q, ctx, fi, is_kv in work:
         for c in ast.walk(fi.node):
             if not isinstance(c, ast.Call) or not c.args:
                 continue
@@ -1204,7 +1219,7 @@ def piecewise_eval(r: R, chk, quals: List[str], rule="PIECEWISE-EVAL"):
     for q in quals:
         ctx = r.root(q)
         fi = ctx.fi
-        offers_closed = any(f in CLOSED_NODES for d in ast.walk(fi.node) if isinstance(d, ast.Dict) for v in d.values for f in funcrefs(ctx, v))
+        offers_closed = any(f in CLOSED_NODES for d in ast.walk(fi.node) if isinstance(d, ast.Dict) for v in d.values for e in (v.elts if isinstance(v, ast.Tuple) else [v]) for f in funcrefs(ctx, e))
         if not offers_closed:
             continue
         for lp in [x for x in ast.walk(fi.node) if isinstance(x, ast.For)]:
@@ -1560,18 +1575,9 @@ def size_default(r: R, chk, quals: List[str], exact: List[str], rule="SIZE-DEFAU
     for q in quals:
         ctx = r.root(q)
         fi = ctx.fi
-        reg = None
-        for s in ast.walk(fi.node):
-            if isinstance(s, ast.Assign) and isinstance(s.value, ast.Dict) and isinstance(s.targets[0], ast.Name):
-                refs = {}
-                for k, v in zip(s.value.keys, s.value.values):
-                    if isinstance(k, ast.Constant) and isinstance(k.value, str):
-                        fr = funcrefs(ctx, v)
-                        if len(fr) == 1 and fr[0].startswith(NS):
-                            refs[k.value] = fr[0]
-                if refs and len(refs) == len(s.value.keys):
-                    reg = (s.targets[0].id, refs)
-                    break
+        from .c10 import node_registry
+
+        reg = node_registry(ctx, fi)
         if reg is None:
             continue
         # the call `f(size)` whose callee comes from the registry
